@@ -178,6 +178,42 @@ theorem authenticate_user_accepts (P : Prims) (hP : PrimsOK P) (c : Cfg) (v : In
     · rw [if_neg h3]; omega
   simp only [hp', hkb _, if_false, h]
 
+/-- `authenticate` with the **owner** password.  The code tries the user path first, so the single
+    remaining assumption is that the owner password is not *also* accepted by the U check with a
+    different padded form (second-preimage resistance of the U check, cf. H1 of
+    `C10_rejects_writer_partial`); when both passwords pad to the same 32 bytes nothing is assumed. -/
+theorem authenticate_owner_accepts_partial (P : Prims) (hP : PrimsOK P) (c : Cfg) (v : Int)
+    (ownerCps : List Nat) (userPw ownerPw tail : Bytes)
+    (hr : c.r = 2 ∨ c.r = 3 ∨ c.r = 4) (hp : -4294967296 ≤ c.p) (hp0 : c.p ≠ 0) (hp32 : c.p < 4294967296)
+    (hl : 8 ≤ c.length) (henc : encodeLatin1 ownerCps = some ownerPw)
+    (hU : authUser P (params234 c v (derive234 P c (pad32 userPw) (pad32 ownerPw) tail).1
+            (derive234 P c (pad32 userPw) (pad32 ownerPw) tail).2.1) c.length (uintValue32 c.p) ownerPw = none
+          ∨ pad32 ownerPw = pad32 userPw) :
+    authenticate234 P (params234 c v (derive234 P c (pad32 userPw) (pad32 ownerPw) tail).1
+        (derive234 P c (pad32 userPw) (pad32 ownerPw) tail).2.1) c.length (uintValue32 c.p) ownerCps
+      = .ok (derive234 P c (pad32 userPw) (pad32 ownerPw) tail).2.2 := by
+  have hu := user_pw_accepts P hP c v userPw ownerPw tail hr hp
+  have ho := owner_pw_accepts P hP c v userPw ownerPw tail hr hp
+  unfold authenticate234
+  rw [henc]
+  have hp' : ¬ uintValue32 c.p ≥ 4294967296 := by unfold uintValue32; split <;> omega
+  have hkb : ∀ r : Int, ¬ keyBytes r c.length = 0 := by
+    intro r
+    unfold keyBytes BITS_PER_KEY_BYTE KEY_BYTES_R2
+    by_cases h3 : r ≥ 3
+    · rw [if_pos h3]; omega
+    · rw [if_neg h3]; omega
+  rcases hU with hnone | hsame
+  · simp only [hp', hkb _, if_false, hnone, ho]
+  · have heq : authUser P (params234 c v (derive234 P c (pad32 userPw) (pad32 ownerPw) tail).1
+            (derive234 P c (pad32 userPw) (pad32 ownerPw) tail).2.1) c.length (uintValue32 c.p) ownerPw
+        = authUser P (params234 c v (derive234 P c (pad32 userPw) (pad32 ownerPw) tail).1
+            (derive234 P c (pad32 userPw) (pad32 ownerPw) tail).2.1) c.length (uintValue32 c.p) userPw := by
+      unfold authUser
+      simp only
+      rw [computeKey_is_alg2 P c v _ _ ownerPw hr hp, computeKey_is_alg2 P c v _ _ userPw hr hp, hsame]
+    simp only [hp', hkb _, if_false, heq, hu]
+
 /-! ## revisions 5 and 6 -/
 
 /-- The Encrypt dictionary entries of a revision 5/6 document written by Algorithms 8 and 9. -/
@@ -233,19 +269,76 @@ theorem r56_authenticate_owner (P : Prims) (hP : PrimsOK P) (r : Int) (key up op
   rw [hn]
   simp only [h]
 
-/-- `authenticate` of the V5 handler with the user password.  The owner branch is tried first; it
-    is assumed not to fire for the user password unless it yields the same key (no collision of the
-    validation hash - a cryptographic assumption, stated explicitly). -/
+/-- The owner branch of `authenticate`, evaluated on the writer's dictionary, is exactly the test
+    `H(pw, ov, U) = H(owner, ov, U)`. -/
+theorem authOwner56_writer (P : Prims) (hP : PrimsOK P) (r : Int) (key up op b : Bytes) (s : Salts)
+    (hs : Salts8 P r s) :
+    authOwner56 P (params56 r (derive56 P r key up op s)) b =
+      if passwordHash P r b s.ov (derive56 P r key up op s).1
+          = passwordHash P r op s.ov (derive56 P r key up op s).1
+      then some (P.aesDec (passwordHash P r b s.ok (derive56 P r key up op s).1) zeroIV
+                  (derive56 P r key up op s).2.2.2)
+      else none := by
+  obtain ⟨h1, h2, h3⟩ := split_hash_salts
+    (hash56 P r op s.ov (hash56 P r up s.uv [] ++ s.uv ++ s.uk)) s.ov s.ok (hs.hash_len _ _ _) hs.ov
+  unfold authOwner56 oHash oValidationSalt oKeySalt
+  simp only [hash56] at h1 h2 h3
+  simp only [params56, derive56, hash56, h1, h2, h3]
+  rfl
+
+theorem authUser56_writer (P : Prims) (r : Int) (key up op b : Bytes) (s : Salts)
+    (hs : Salts8 P r s) :
+    authUser56 P (params56 r (derive56 P r key up op s)) b =
+      if passwordHash P r b s.uv [] = passwordHash P r up s.uv []
+      then some (P.aesDec (passwordHash P r b s.uk []) zeroIV (derive56 P r key up op s).2.1)
+      else none := by
+  obtain ⟨h1, h2, h3⟩ := split_hash_salts (hash56 P r up s.uv []) s.uv s.uk (hs.hash_len _ _ _) hs.uv
+  unfold authUser56 uHash uValidationSalt uKeySalt
+  simp only [hash56] at h1 h2 h3
+  simp only [params56, derive56, hash56, h1, h2, h3]
+
+/-- `authenticate` with the user password when user and owner password coincide: no assumption. -/
+theorem r56_authenticate_user_same_pw (P : Prims) (hP : PrimsOK P) (r : Int) (key up : Bytes)
+    (s : Salts) (hs : Salts8 P r s) (cps : List Nat) (hn : normalizePassword P r cps = .ok up) :
+    authenticate56 P (params56 r (derive56 P r key up up s)) cps = .ok key :=
+  r56_authenticate_owner P hP r key up up s hs cps hn
+
+/-- `authenticate` of the V5 handler with the user password.  The code tries the owner branch
+    first, so the single remaining assumption is that the *owner validation hash of this document
+    does not collide between its two passwords*: `up ≠ op → H(up, ov, U) ≠ H(op, ov, U)`.
+    (With `up = op` nothing is assumed; see also `r56_authenticate_user_same_pw`.) -/
 theorem r56_authenticate_user_partial (P : Prims) (hP : PrimsOK P) (r : Int) (key up op : Bytes)
     (s : Salts) (hs : Salts8 P r s) (cps : List Nat) (hn : normalizePassword P r cps = .ok up)
-    (hcoll : authOwner56 P (params56 r (derive56 P r key up op s)) up = none ∨
-             authOwner56 P (params56 r (derive56 P r key up op s)) up = some key) :
+    (hcoll : up ≠ op → passwordHash P r up s.ov (derive56 P r key up op s).1
+                      ≠ passwordHash P r op s.ov (derive56 P r key up op s).1) :
     authenticate56 P (params56 r (derive56 P r key up op s)) cps = .ok key := by
-  have h := r56_user_accepts P hP r key up op s hs
+  by_cases he : up = op
+  · subst he; exact r56_authenticate_user_same_pw P hP r key up s hs cps hn
+  · have ho := authOwner56_writer P hP r key up op up s hs
+    rw [if_neg (hcoll he)] at ho
+    have hu := r56_user_accepts P hP r key up op s hs
+    unfold authenticate56
+    simp only [params56] at ho hu ⊢
+    rw [hn]
+    simp only [ho, hu]
+
+/-- **Every other password is rejected** (R5/R6, documents of a conforming writer).  `_partial`:
+    the two remaining assumptions are that the wrong password's validation hashes do not collide
+    with the owner's resp. the user's (SHA-256 / Algorithm 2.B collision resistance). -/
+theorem r56_rejects_writer_partial (P : Prims) (hP : PrimsOK P) (r : Int) (key up op b : Bytes)
+    (s : Salts) (hs : Salts8 P r s) (cps : List Nat) (hn : normalizePassword P r cps = .ok b)
+    (hno : passwordHash P r b s.ov (derive56 P r key up op s).1
+            ≠ passwordHash P r op s.ov (derive56 P r key up op s).1)
+    (hnu : passwordHash P r b s.uv [] ≠ passwordHash P r up s.uv []) :
+    authenticate56 P (params56 r (derive56 P r key up op s)) cps = .error .passwordIncorrect := by
+  have ho := authOwner56_writer P hP r key up op b s hs
+  rw [if_neg hno] at ho
+  have hu := authUser56_writer P r key up op b s hs
+  rw [if_neg hnu] at hu
   unfold authenticate56
-  simp only [params56] at h hcoll ⊢
+  simp only [params56] at ho hu ⊢
   rw [hn]
-  rcases hcoll with h0 | h0 <;> simp only [h0, h]
+  simp only [ho, hu]
 
 /-- The `while` loop of Algorithm 2.B as coded in `_r6_password` always terminates within the
     fuel: after round 64 it stops as soon as `last byte <= round - 32`, and a byte is < 256. -/
@@ -386,6 +479,45 @@ theorem once_only_string (P : Prims) (h : Handler) (objid genno : Nat) (b : Byte
   | nil => exact absurd rfl hb
   | cons x xs => simp [getobj, decipherAll]
 
+/-- **Deciphered exactly once, as a trace**: a first `getobj` of a direct object (any nesting
+    depth of arrays / dictionaries, strings inside a stream dictionary, the stream payload) makes
+    exactly the cipher calls `expectedCalls o` - each non-empty string once, the payload once,
+    nothing for a cross-reference stream - and returns the pure model's result. -/
+theorem once_only_trace (P : Prims) (h : Handler) (caching : Bool) (objid genno : Nat) (o : Obj) :
+    (getobjSt P h caching {} .direct objid genno o).1 = getobj P h .direct objid genno o ∧
+    (getobjSt P h caching {} .direct objid genno o).2.2 = expectedCalls o := by
+  simp [getobjSt, cacheLookup, getobj, decipherAllT_spec]
+
+/-- Members of object streams, the trailer and the Encrypt dictionary: zero cipher calls. -/
+theorem once_only_trace_elsewhere (P : Prims) (h : Handler) (caching : Bool) (st : DocState) (loc : Loc)
+    (objid genno : Nat) (o : Obj) (hl : loc ≠ .direct) (hc : cacheLookup objid st.cache = none) :
+    (getobjSt P h caching st loc objid genno o).1 = o ∧
+    (getobjSt P h caching st loc objid genno o).2.2 = [] := by
+  cases loc <;> first | exact absurd rfl hl | simp [getobjSt, hc]
+
+/-- State carried across calls: with the cache on, a second `getobj` of the same object returns
+    the same object and makes **no** cipher call (the cached object is not deciphered again). -/
+theorem once_only_second_read_cached (P : Prims) (h : Handler) (loc : Loc) (objid genno : Nat) (o : Obj) :
+    let r1 := getobjSt P h true {} loc objid genno o
+    let r2 := getobjSt P h true r1.2.1 loc objid genno o
+    r2.1 = r1.1 ∧ r2.2.2 = [] ∧ r2.2.1.cache = r1.2.1.cache := by
+  simp [getobjSt, cacheLookup]
+
+/-- With the cache off the object is parsed again from the stored bytes and deciphered afresh:
+    same result, same calls - never a decryption of an already decrypted object. -/
+theorem once_only_second_read_uncached (P : Prims) (h : Handler) (loc : Loc) (objid genno : Nat) (o : Obj) :
+    let r1 := getobjSt P h false {} loc objid genno o
+    let r2 := getobjSt P h false r1.2.1 loc objid genno o
+    r2 = r1 := by
+  simp [getobjSt, cacheLookup]
+
+/-- Non-vacuity of the trace statement: a dictionary holding an array holding a dictionary, an
+    empty string, and a stream with a string in its dictionary - four calls, in traversal order. -/
+example :
+    expectedCalls (.dict [([65], .arr [.str [1], .dict [([66], .str [2, 3])], .str []]),
+                          ([67], .stream [([68], .str [4])] [9, 9])])
+      = [.str [1], .str [2, 3], .str [4], .payload false [9, 9]] := by decide
+
 /-! ## permissions -/
 
 /-- print / modify / extract are bits 3 / 4 / 5 of P (values 4, 8, 16) of the stored value. -/
@@ -413,33 +545,90 @@ theorem perms_of_signed_P (p : Int) (hp : -4294967296 ≤ p) :
 
 /-! ## wrong passwords -/
 
-/-- **Every other password is rejected** (revisions 2-4), under the explicit cryptographic
-    assumptions that (1) no other 32-byte padded password passes the U check (no second preimage
-    through MD5/RC4) and (2) peeling O with a key derived from another password does not produce
-    a password that passes it.  `_partial`: the assumptions are hypotheses, not theorems. -/
-theorem C10_rejects_partial (P : Prims) (prm : Params) (length p : Nat) (cps : List Nat)
-    (userPad : Bytes)
-    (hnc1 : ∀ q, (authUser P prm length p q).isSome → padPassword q = userPad)
-    (hnc2 : ∀ q, padPassword (recoverUser P prm length q) = userPad → False)
+/-- Rejection (revisions 2-4) for an arbitrary Encrypt dictionary: if neither the password itself
+    nor what Algorithm 7 recovers from O with it passes the U check, it is rejected.  (Generic
+    form; `C10_rejects_writer_partial` instantiates it for documents of a conforming writer.) -/
+theorem C10_rejects_generic (P : Prims) (prm : Params) (length p : Nat) (cps : List Nat)
     (hp : p < 4294967296) (hk : keyBytes prm.r length ≠ 0)
-    (hw : ∀ b, encodeLatin1 cps = some b → padPassword b ≠ userPad) :
+    (hu : ∀ b, encodeLatin1 cps = some b → authUser P prm length p b = none)
+    (ho : ∀ b, encodeLatin1 cps = some b → authUser P prm length p (recoverUser P prm length b) = none) :
     authenticate234 P prm length p cps = .error .passwordIncorrect := by
   unfold authenticate234
   cases henc : encodeLatin1 cps with
   | none => rfl
   | some b =>
     have hp' : ¬ p ≥ 4294967296 := by omega
-    simp only [hp', hk, if_false]
-    have hu : authUser P prm length p b = none := by
-      cases hau : authUser P prm length p b with
-      | none => rfl
-      | some k => exact absurd (hnc1 b (by simp [hau])) (hw b henc)
-    have ho : authOwner P prm length p b = none := by
-      unfold authOwner
-      cases hau : authUser P prm length p (recoverUser P prm length b) with
-      | none => rfl
-      | some k => exact absurd (hnc1 _ (by simp [hau])) (fun h => hnc2 b h)
-    simp only [hu, ho]
+    simp only [hp', hk, if_false, hu b henc, authOwner, ho b henc]
+
+theorem pad32_of_length (x : Bytes) (h : x.length = 32) : pad32 x = x := by
+  unfold pad32
+  rw [List.take_append_of_le_length (by omega), List.take_of_length_le (by omega)]
+
+theorem alg3O_length (P : Prims) (c : Cfg) (po pu : Bytes) : (alg3O P c po pu).length = pu.length := by
+  unfold alg3O
+  simp only
+  split
+  · have := rc4Layers_length ((iter P.md5 50 (P.md5 po)).take (keyLen c)) (List.range' 1 19)
+      (rc4Core ((iter P.md5 50 (P.md5 po)).take (keyLen c)) pu)
+    simp only [rc4Layers] at this
+    rw [this, rc4Core_length]
+  · rw [rc4Core_length]
+
+theorem recoverUser_length (P : Prims) (prm : Params) (length : Nat) (q : Bytes) :
+    (recoverUser P prm length q).length = prm.o.length := by
+  unfold recoverUser
+  simp only
+  split
+  · rw [rc4Core_length]
+  · rw [rc4Layers_length]
+
+/-- **Every other password is rejected** (revisions 2-4, documents of a conforming writer).
+    `_partial`: exactly two cryptographic assumptions remain, both about MD5/RC4 as used here:
+    (H1) second-preimage resistance of the U check - no 32-byte padded password other than the
+         user's produces a key that passes Algorithm 6;
+    (H2) no password other than the owner's produces an RC4 key that decrypts O to the padded user
+         password.
+    Everything else (padding, Algorithm 2, the 20 layers, lengths, the Latin-1 step) is proved. -/
+theorem C10_rejects_writer_partial (P : Prims) (c : Cfg) (v : Int)
+    (userPw ownerPw tail : Bytes) (cps : List Nat)
+    (hr : c.r = 2 ∨ c.r = 3 ∨ c.r = 4) (hp : -4294967296 ≤ c.p) (hp0 : c.p ≠ 0) (hp32 : c.p < 4294967296)
+    (hl : 8 ≤ c.length)
+    (H1 : ∀ q : Bytes, verifyKey P (params234 c v (derive234 P c (pad32 userPw) (pad32 ownerPw) tail).1
+              (derive234 P c (pad32 userPw) (pad32 ownerPw) tail).2.1)
+            (alg2Key P c (pad32 q) (derive234 P c (pad32 userPw) (pad32 ownerPw) tail).1) = true →
+          pad32 q = pad32 userPw)
+    (H2 : ∀ q : Bytes, recoverUser P (params234 c v (derive234 P c (pad32 userPw) (pad32 ownerPw) tail).1
+              (derive234 P c (pad32 userPw) (pad32 ownerPw) tail).2.1) c.length q = pad32 userPw →
+          pad32 q = pad32 ownerPw)
+    (hw : ∀ b, encodeLatin1 cps = some b → pad32 b ≠ pad32 userPw ∧ pad32 b ≠ pad32 ownerPw) :
+    authenticate234 P (params234 c v (derive234 P c (pad32 userPw) (pad32 ownerPw) tail).1
+        (derive234 P c (pad32 userPw) (pad32 ownerPw) tail).2.1) c.length (uintValue32 c.p) cps
+      = .error .passwordIncorrect := by
+  have hnone : ∀ q : Bytes, pad32 q ≠ pad32 userPw →
+      authUser P (params234 c v (derive234 P c (pad32 userPw) (pad32 ownerPw) tail).1
+        (derive234 P c (pad32 userPw) (pad32 ownerPw) tail).2.1) c.length (uintValue32 c.p) q = none := by
+    intro q hq
+    unfold authUser
+    simp only
+    rw [computeKey_is_alg2 P c v _ _ q hr hp]
+    split
+    · rename_i hv; exact absurd (H1 q hv) hq
+    · rfl
+  apply C10_rejects_generic
+  · unfold uintValue32; split <;> omega
+  · unfold keyBytes BITS_PER_KEY_BYTE KEY_BYTES_R2
+    split <;> omega
+  · intro b hb; exact hnone b (hw b hb).1
+  · intro b hb
+    apply hnone
+    intro hq
+    have hlen : (recoverUser P (params234 c v (derive234 P c (pad32 userPw) (pad32 ownerPw) tail).1
+        (derive234 P c (pad32 userPw) (pad32 ownerPw) tail).2.1) c.length b).length = 32 := by
+      rw [recoverUser_length]
+      show (alg3O P c (pad32 ownerPw) (pad32 userPw)).length = 32
+      rw [alg3O_length, pad32_length]
+    rw [pad32_of_length _ hlen] at hq
+    exact (hw b hb).2 (H2 b hq)
 
 /-- A password that has no Latin-1 form is rejected outright (repaired behaviour; the pinned code
     raised UnicodeEncodeError). -/
@@ -458,11 +647,309 @@ theorem r56_rejects_partial (P : Prims) (prm : Params) (cps : List Nat) (b : Byt
   simp [authenticate56, hn, authOwner56, authUser56, ho, hu]
 
 theorem r6_rejects_saslprep_refused (P : Prims) (prm : Params) (cps : List Nat)
-    (hr : prm.r = 6) (hne : cps ≠ []) (hs : P.saslprep cps = none) :
+    (hr : prm.r = 6) (hne : cps ≠ []) (hs : saslprepModel P.sasl cps = none) :
     authenticate56 P prm cps = .error .passwordIncorrect := by
   cases cps with
   | nil => exact absurd rfl hne
   | cons c cs => simp [authenticate56, normalizePassword, hr, hs]
+
+/-! ## SASLprep (revision 6 password preparation) -/
+
+/-- RFC 4013 as written: map (C.1.2 -> SPACE, B.1 -> nothing), NFKC, then reject prohibited output
+    and unassigned code points, and apply RFC 3454 section 6: if the string contains any RandALCat
+    character it must contain no LCat character and must begin and end with a RandALCat character. -/
+def saslprepSpec (T : SaslTables) (data : List Nat) : Option (List Nat) :=
+  let norm := T.nfkc ((data.filter (fun c => ! T.b1 c)).map (fun c => if T.c12 c then 32 else c))
+  if norm.any T.prohibited then none
+  else if norm.any T.d1 then
+    if norm.any T.d2 then none
+    else match norm.head?, norm.getLast? with
+      | some a, some b => if T.d1 a && T.d1 b then some norm else none
+      | _, _ => none
+  else some norm
+
+/-- The tables `_saslprep.py` consults are exactly those of RFC 4013 section 2.3 (+ A.1 for stored
+    strings), and C.1.2 characters are mapped to U+0020 - regenerated from the source on every run. -/
+theorem sasl_tables_are_rfc4013 :
+    SASL_PROHIBITED_TABLES = ["c12", "c21_c22", "c3", "c4", "c5", "c6", "c7", "c8", "c9"] ∧
+    SASL_BODY_TABLES = ["c12", "b1", "d1", "a1", "d2"] ∧ SASL_SPACE = 32 := by decide
+
+theorem any_or (l : List Nat) (p q : Nat → Bool) :
+    l.any (fun c => p c || q c) = (l.any p || l.any q) := by
+  induction l with
+  | nil => rfl
+  | cons a t ih => simp only [List.any_cons, ih]; cases p a <;> cases q a <;> simp
+
+theorem any_of_head (l : List Nat) (p : Nat → Bool) (a : Nat) (h : l.head? = some a) (hp : p a = true) :
+    l.any p = true := by
+  cases l with
+  | nil => simp at h
+  | cons x t => simp at h; subst h; simp [hp]
+
+theorem any_of_last (l : List Nat) (p : Nat → Bool) (a : Nat) (h : l.getLast? = some a) (hp : p a = true) :
+    l.any p = true := by
+  have hm : a ∈ l := List.mem_of_getLast? h
+  exact List.any_eq_true.mpr ⟨a, hm, hp⟩
+
+/-- **The control flow of `_saslprep.saslprep` implements RFC 4013** for every table content: the
+    code's bidi logic ("first character RandALCat => last must be, and no LCat; otherwise no
+    RandALCat anywhere") is equivalent to RFC 3454 section 6.  What stays trusted is the content of
+    the `stringprep` tables and Unicode 3.2 NFKC. -/
+theorem saslprep_model_eq_spec (T : SaslTables) (data : List Nat) :
+    saslprepModel T data = saslprepSpec T data := by
+  unfold saslprepModel saslprepSpec
+  simp only [show SASL_SPACE = 32 from rfl]
+  generalize T.nfkc _ = norm
+  cases hh : norm.head? with
+  | none =>
+    have : norm = [] := by cases norm <;> simp_all
+    subst this; simp
+  | some first =>
+    cases hl : norm.getLast? with
+    | none =>
+      have : norm = [] := by cases norm <;> simp_all
+      subst this; simp at hh
+    | some last =>
+      simp only [any_or]
+      by_cases hp : norm.any T.prohibited = true
+      · simp [hp]
+      · have hp' : norm.any T.prohibited = false := by simpa using hp
+        simp only [hp', Bool.false_or, Bool.false_eq_true, if_false]
+        by_cases h1 : T.d1 first = true
+        · have hany : norm.any T.d1 = true := any_of_head norm T.d1 first hh h1
+          simp only [h1, hany, if_true]
+          by_cases h2 : T.d1 last = true
+          · simp [h2]
+          · have h2' : T.d1 last = false := by simpa using h2
+            simp [h2']
+        · have h1' : T.d1 first = false := by simpa using h1
+          simp only [h1', Bool.false_eq_true, if_false]
+          by_cases hany : norm.any T.d1 = true
+          · simp [hany]
+          · have hany' : norm.any T.d1 = false := by simpa using hany
+            simp [hany']
+
+/-- Non-vacuity: an Arabic letter followed by a Latin one is refused, two Arabic letters pass
+    (toy tables: 0x627/0x628 are RandALCat, 0x61 is LCat). -/
+example :
+    let T : SaslTables := { c12 := fun _ => false, b1 := fun c => c == 0xAD, prohibited := fun c => c == 7,
+                            d1 := fun c => c == 0x627 || c == 0x628, d2 := fun c => c == 0x61, nfkc := id }
+    saslprepModel T [0x627, 0x61] = none ∧ saslprepModel T [0x627, 0xAD, 0x628] = some [0x627, 0x628] ∧
+    saslprepModel T [0xAD] = some [] ∧ saslprepModel T [0x61, 7] = none := by decide
+
+/-! ## end to end: handler selection + authentication + round trip + permissions -/
+
+/-- CFM name a writer stores for a method. -/
+def cfmName : Method → Bytes
+  | .rc4 => nameV2
+  | .aes128 => nameAESV2
+  | .aes256 => nameAESV3
+  | .identity => []
+
+/-- Encrypt dictionary of a V4/V5 document: the entries of `base` plus one crypt filter `cfName`
+    with method `m` named by StmF and StrF (for Identity: no CF entry, StmF = StrF = /Identity). -/
+def withCryptFilter (base : Params) (cfName : Bytes) (m : Method) : Params :=
+  { base with
+    cf := if m = .identity then [] else [(cfName, cfmName m)]
+    stmf := if m = .identity then nameIdentity else cfName
+    strf := if m = .identity then nameIdentity else cfName }
+
+/-- All configurations of the property's quantifier. -/
+inductive Config where
+  /-- V 1 or 2, revision 2 or 3, RC4 with `Length` 40..128 -/
+  | base (v : Int) (c : Cfg)
+  /-- V 4, revision 4, crypt filter `cfName` with V2 (RC4-128), AESV2 or Identity -/
+  | v4 (c : Cfg) (cfName : Bytes) (m : Method)
+  /-- V 5, revision 5 or 6, crypt filter `cfName` with AESV3 -/
+  | v5 (r : Int) (p : Int) (cfName : Bytes) (encryptMetadata : Bool)
+
+structure Passwords where
+  userCps : List Nat       -- the password as typed (code points)
+  user : Bytes             -- its key-derivation form (Latin-1 bytes / normalised UTF-8)
+  owner : Bytes
+
+/-- Random material of the writer. -/
+structure Rand where
+  tail : Bytes             -- 16 arbitrary bytes of U (R3/R4)
+  fileKey : Bytes          -- R5/R6 file key
+  salts : Salts
+
+def Config.valid (P : Prims) : Config → Passwords → Rand → Prop
+  | .base v c, pw, _ =>
+    (v = 1 ∨ v = 2) ∧ (c.r = 2 ∨ c.r = 3) ∧ 8 ≤ c.length ∧ -4294967296 ≤ c.p ∧ c.p ≠ 0 ∧ c.p < 4294967296 ∧
+    encodeLatin1 pw.userCps = some pw.user
+  | .v4 c cfName m, pw, _ =>
+    c.r = 4 ∧ c.length = 128 ∧ -4294967296 ≤ c.p ∧ c.p ≠ 0 ∧ c.p < 4294967296 ∧
+    (m = .rc4 ∨ m = .aes128 ∨ m = .identity) ∧ cfName ≠ nameIdentity ∧
+    encodeLatin1 pw.userCps = some pw.user
+  | .v5 r _ cfName _, pw, rnd =>
+    (r = 5 ∨ r = 6) ∧ cfName ≠ nameIdentity ∧ Salts8 P r rnd.salts ∧
+    normalizePassword P r pw.userCps = .ok pw.user ∧
+    (pw.user ≠ pw.owner → passwordHash P r pw.user rnd.salts.ov (derive56 P r rnd.fileKey pw.user pw.owner rnd.salts).1
+        ≠ passwordHash P r pw.owner rnd.salts.ov (derive56 P r rnd.fileKey pw.user pw.owner rnd.salts).1)
+
+/-- The Encrypt dictionary (as `init_params` reads it) that a conforming writer stores. -/
+def Config.encryptDict (P : Prims) : Config → Passwords → Rand → Params
+  | .base v c, pw, rnd =>
+    params234 c v (derive234 P c (pad32 pw.user) (pad32 pw.owner) rnd.tail).1
+      (derive234 P c (pad32 pw.user) (pad32 pw.owner) rnd.tail).2.1
+  | .v4 c cfName m, pw, rnd =>
+    withCryptFilter (params234 c 4 (derive234 P c (pad32 pw.user) (pad32 pw.owner) rnd.tail).1
+      (derive234 P c (pad32 pw.user) (pad32 pw.owner) rnd.tail).2.1) cfName m
+  | .v5 r p cfName em, pw, rnd =>
+    withCryptFilter { params56 r (derive56 P r rnd.fileKey pw.user pw.owner rnd.salts) with
+                      p := p, encryptMetadata := em } cfName .aes256
+
+def Config.fileKey (P : Prims) : Config → Passwords → Rand → Bytes
+  | .base _ c, pw, rnd => (derive234 P c (pad32 pw.user) (pad32 pw.owner) rnd.tail).2.2
+  | .v4 c _ _, pw, rnd => (derive234 P c (pad32 pw.user) (pad32 pw.owner) rnd.tail).2.2
+  | .v5 _ _ _ _, _, rnd => rnd.fileKey
+
+def Config.method : Config → Method
+  | .base _ _ => .rc4
+  | .v4 _ _ m => m
+  | .v5 _ _ _ _ => .aes256
+
+def Config.P : Config → Int
+  | .base _ c => c.p
+  | .v4 c _ _ => c.p
+  | .v5 _ p _ _ => p
+
+theorem lookup_cfm (cfName : Bytes) (m : Method) (h : cfName ≠ nameIdentity) :
+    lookup cfName ([(cfName, m)].filter (fun km => km.1 ≠ nameIdentity) ++ [(nameIdentity, Method.identity)])
+      = some m := by
+  simp [lookup, h]
+
+/-- **Opening with the user password** selects the right handler class and recovers the file key,
+    for every configuration. -/
+theorem C10_open (P : Prims) (hP : PrimsOK P) (cfg : Config) (pw : Passwords) (rnd : Rand)
+    (hv : cfg.valid P pw rnd) :
+    ∃ h, openHandler P (cfg.encryptDict P pw rnd) pw.userCps = .ok h ∧
+         h.key = cfg.fileKey P pw rnd ∧ h.p = uintValue32 cfg.P ∧
+         (if h.cls = 1 then cfg.method = .rc4 else lookup h.strf h.cfm = some cfg.method) := by
+  cases cfg with
+  | base v c =>
+    obtain ⟨hv', hr, hl, hp, hp0, hp32, henc⟩ := hv
+    have hr' : c.r = 2 ∨ c.r = 3 ∨ c.r = 4 := by rcases hr with h | h <;> simp [h]
+    have ha := authenticate_user_accepts P hP c v pw.userCps pw.user pw.owner rnd.tail hr' hp hp0 hp32 hl henc
+    refine ⟨{ cls := 1, r := c.r, p := uintValue32 c.p, length := c.length,
+              key := (derive234 P c (pad32 pw.user) (pad32 pw.owner) rnd.tail).2.2 }, ?_, rfl, rfl, ?_⟩
+    · unfold openHandler
+      simp only [Config.encryptDict, params234] at ha ⊢
+      rcases hv' with h1 | h1 <;> rcases hr with h2 | h2 <;>
+        simp [h1, h2, HANDLER_REGISTRY, openHandler.lookup', SUPPORTED_REVISIONS_BASE] at ha ⊢ <;>
+        simp [ha]
+    · simp [Config.method]
+  | v4 c cfName m =>
+    obtain ⟨hr, hl, hp, hp0, hp32, hm, hcf, henc⟩ := hv
+    have hr' : c.r = 2 ∨ c.r = 3 ∨ c.r = 4 := Or.inr (Or.inr hr)
+    have ha := authenticate_user_accepts P hP c 4 pw.userCps pw.user pw.owner rnd.tail hr' hp hp0 hp32
+      (by omega) henc
+    rw [hl] at ha
+    refine ⟨{ cls := 4, r := 4, p := uintValue32 c.p, length := 128,
+              key := (derive234 P c (pad32 pw.user) (pad32 pw.owner) rnd.tail).2.2,
+              cfm := (if m = .identity then [] else [(cfName, m)]).filter (fun km => km.1 ≠ nameIdentity)
+                       ++ [(nameIdentity, Method.identity)],
+              strf := if m = .identity then nameIdentity else cfName,
+              encryptMetadata := c.encryptMetadata }, ?_, rfl, rfl, ?_⟩
+    · have ha' : authenticate234 P (withCryptFilter (params234 c 4
+            (derive234 P c (pad32 pw.user) (pad32 pw.owner) rnd.tail).1
+            (derive234 P c (pad32 pw.user) (pad32 pw.owner) rnd.tail).2.1) cfName m) 128
+          (uintValue32 c.p) pw.userCps
+          = .ok (derive234 P c (pad32 pw.user) (pad32 pw.owner) rnd.tail).2.2 := ha
+      unfold openHandler
+      simp only [Config.encryptDict] at ha' ⊢
+      rcases hm with h | h | h <;> subst h <;>
+        simp [withCryptFilter, params234, hr, HANDLER_REGISTRY, openHandler.lookup', SUPPORTED_REVISIONS_V4,
+          buildCfm, getCfm, cfmName, lookup, hcf, nameV2, nameAESV2] at ha' ⊢ <;>
+        simp [ha', hcf, lookup]
+    · rcases hm with h | h | h <;> subst h <;> simp [Config.method, lookup, hcf]
+  | v5 r p cfName em =>
+    obtain ⟨hr, hcf, hs, hn, hcoll⟩ := hv
+    have ha := r56_authenticate_user_partial P hP r rnd.fileKey pw.user pw.owner rnd.salts hs pw.userCps hn hcoll
+    refine ⟨{ cls := 5, r := r, p := uintValue32 p, length := 256, key := rnd.fileKey,
+              cfm := [(cfName, Method.aes256)].filter (fun km => km.1 ≠ nameIdentity)
+                       ++ [(nameIdentity, Method.identity)],
+              strf := cfName, encryptMetadata := em }, ?_, rfl, rfl, ?_⟩
+    · have ha' : authenticate56 P
+          (withCryptFilter { params56 r (derive56 P r rnd.fileKey pw.user pw.owner rnd.salts) with
+                      p := p, encryptMetadata := em } cfName .aes256) pw.userCps = .ok rnd.fileKey := ha
+      unfold openHandler
+      simp only [Config.encryptDict] at ha' ⊢
+      rcases hr with h | h <;> subst h <;>
+        simp [withCryptFilter, params56, HANDLER_REGISTRY, openHandler.lookup', SUPPORTED_REVISIONS_V5,
+          buildCfm, getCfm, cfmName, lookup, hcf, nameAESV3] at ha' ⊢ <;>
+        simp [ha', hcf, lookup]
+    · simp [Config.method, lookup, hcf]
+
+/-- Encrypting a non-empty string never yields the empty string (so the reader's "skip empty
+    strings" shortcut cannot hit an encrypted string). -/
+theorem encryptBytes_ne_nil (P : Prims) (m : Method) (key : Bytes) (objid genno : Nat) (iv b : Bytes)
+    (hm : m ≠ .identity) (hiv : iv.length = 16)
+    (h : encryptBytes P m key objid genno iv b = []) : b = [] := by
+  cases m with
+  | identity => exact absurd rfl hm
+  | rc4 =>
+    have := congrArg List.length h
+    simp only [encryptBytes, rc4Core_length, List.length_nil] at this
+    exact List.eq_nil_of_length_eq_zero this
+  | aes128 =>
+    have := congrArg List.length h
+    simp [encryptBytes, hiv] at this
+  | aes256 =>
+    have := congrArg List.length h
+    simp [encryptBytes, hiv] at this
+
+/-- **Reachable AES-128 key lengths** (remark on `min(len(key)+9, 16)` in `decrypt_aes128`): every
+    V4 document has a 16-byte file key, because `init_params` forces `length = 128`; the deviation
+    from Algorithm 1 (`min(n+5, 16)`) concerns keys shorter than 11 bytes only, which the V4 handler
+    can never hold. -/
+theorem v4_file_key_length (P : Prims) (hP : PrimsOK P) (c : Cfg) (pu o : Bytes)
+    (hr : c.r = 4) (hl : c.length = 128) : (alg2Key P c pu o).length = 16 := by
+  rw [alg2Key_length P hP.md5_len c pu o (by omega)]
+  unfold keyLen
+  simp [hr, hl]
+
+/-- **C10, main statement (user password).**  For every configuration of the property's
+    quantifier - V1/V2 RC4 with any key length, V4 with RC4 / AESV2 / Identity, V5 revisions 5 and 6
+    with AESV3; any P, ID, EncryptMetadata, crypt-filter name, passwords, IVs - opening the
+    document a conforming writer produced with the user password
+      * succeeds, with the handler class of the registry and the writer's file key,
+      * reports print / modify / extract as bits 3 / 4 / 5 of the stored P,
+      * and `getobj` returns every direct object exactly as it was before encryption (strings at
+        any depth, stream dictionaries, payloads; Metadata rule; XRef exemption).
+    Assumptions: `PrimsOK` (MD5 digests are 16 bytes, AES-CBC decrypt inverts encrypt) and, for
+    V5 only, the no-collision clause inside `Config.valid`. -/
+theorem C10_main (P : Prims) (hP : PrimsOK P) (cfg : Config) (pw : Passwords) (rnd : Rand)
+    (hv : cfg.valid P pw rnd) (ivOf : Bytes → Bytes) (hiv : ∀ b, (ivOf b).length = 16) :
+    ∃ h, openHandler P (cfg.encryptDict P pw rnd) pw.userCps = .ok h ∧
+      (isPrintable h = (uintValue32 cfg.P / 4 % 2 == 1) ∧
+       isModifiable h = (uintValue32 cfg.P / 8 % 2 == 1) ∧
+       isExtractable h = (uintValue32 cfg.P / 16 % 2 == 1)) ∧
+      ∀ (objid genno : Nat) (o : Obj),
+        getobj P h .direct objid genno
+          (encryptAll (fun b => encryptBytes P cfg.method (cfg.fileKey P pw rnd) objid genno (ivOf b) b)
+            (fun attrs => h.cls ≠ 1 ∧ ¬ h.encryptMetadata ∧ attrsType attrs = some atomMetadata) o) = o := by
+  obtain ⟨h, hopen, hkey, hp, hmeth⟩ := C10_open P hP cfg pw rnd hv
+  refine ⟨h, hopen, ?_, ?_⟩
+  · have := perms_bits h
+    rw [hp] at this
+    exact this
+  · intro objid genno o
+    have hm : Matches h cfg.method (cfg.fileKey P pw rnd) ivOf := by
+      refine ⟨hkey, hmeth, ?_, fun _ => hiv⟩
+      intro haes
+      cases cfg with
+      | base v c => simp [Config.method] at haes
+      | v5 r p n e => simp [Config.method] at haes
+      | v4 c cfName m =>
+        obtain ⟨hr, hl, _⟩ := hv
+        simp only [Config.fileKey]
+        show 11 ≤ (alg2Key P c (pad32 pw.user) (alg3O P c (pad32 pw.owner) (pad32 pw.user))).length
+        rw [v4_file_key_length P hP c _ _ hr hl]
+        omega
+    exact C10_roundtrip P hP h cfg.method (cfg.fileKey P pw rnd) ivOf hm objid genno o
+      (fun hne b hb => encryptBytes_ne_nil P cfg.method _ objid genno (ivOf b) b hne (hiv b) hb)
 
 /-! ## non-vacuity, and the pinned behaviour as proved counter-examples -/
 
@@ -476,7 +963,8 @@ def toyPrims : Prims where
   sha512 := fun b => (b ++ List.replicate 64 0).take 64
   aesDec := fun _ _ d => d
   aesEnc := fun _ _ d => d
-  saslprep := some
+  sasl := { c12 := fun _ => false, b1 := fun _ => false, prohibited := fun _ => false,
+            d1 := fun _ => false, d2 := fun _ => false, nfkc := id }
 
 theorem toyPrims_ok : PrimsOK toyPrims where
   md5_len := by intro x; simp [toyPrims]
@@ -509,5 +997,28 @@ theorem C10_aes_padding_cex :
 /-- ... whereas the repaired reader returns the original string. -/
 example : decryptAes256 toyPrims [1] (encryptBytes toyPrims .aes256 [1] 7 0 (List.replicate 16 9) [65])
     = [65] := by decide
+
+/-- Non-vacuity of `C10_main`: a valid configuration of each kind exists (toy primitives). -/
+example : (Config.base 2 { r := 3, length := 128, p := -1044, id0 := [1, 2, 3] }).valid toyPrims
+    { userCps := [117], user := [117], owner := [111] } { tail := [], fileKey := [], salts := ⟨[], [], [], []⟩ } := by
+  simp [Config.valid, encodeLatin1]
+
+example : (Config.v4 { r := 4, length := 128, p := -4, id0 := [] } [83] .aes128).valid toyPrims
+    { userCps := [], user := [], owner := [111] } { tail := [], fileKey := [], salts := ⟨[], [], [], []⟩ } := by
+  simp [Config.valid, encodeLatin1, nameIdentity]
+
+theorem toy_salts8 (r : Int) (hr : r = 5) :
+    Salts8 toyPrims r ⟨List.replicate 8 1, List.replicate 8 2, List.replicate 8 3, List.replicate 8 4⟩ where
+  uv := by simp
+  ov := by simp
+  hash_len := by intro pw salt v; subst hr; simp [passwordHash, toyPrims]; omega
+
+example : (Config.v5 5 (-4) [83] true).valid toyPrims
+    { userCps := [117], user := [117], owner := [111] }
+    { tail := [], fileKey := List.replicate 32 7,
+      salts := ⟨List.replicate 8 1, List.replicate 8 2, List.replicate 8 3, List.replicate 8 4⟩ } := by
+  refine ⟨Or.inl rfl, by simp [nameIdentity], toy_salts8 5 rfl, by simp [normalizePassword, encodeUtf8, utf8Char, UTF8_PASSWORD_MAX], ?_⟩
+  intro _
+  simp [passwordHash, toyPrims]
 
 end PdfVerif.Props.C10
